@@ -4,25 +4,41 @@ _s = importlib.util.spec_from_file_location("rc", os.path.join(VERIF, "props", "
 
 def api(prog, acqs, nmax, ring, timeout=1200, solver="cadical", name=None, excludes=()):
     return H(name or "api_prog%d_A%d_N%d_K%d" % (prog, acqs, nmax, ring), "harness/runtime/api.c", repo=rc.RUNTIME_SRCS, env=rc.ENV_COARSE,
-             defines=["PROG=%d" % prog, "ACQS=%d" % acqs, "NMAX=%d" % nmax, "RING_FRAMES=%d" % ring] + list(excludes), cflags=rc.cflags(VERIF),
+             defines=["PROG=%d" % prog, "ACQS=%d" % acqs, "NMAX=%d" % nmax, "RING_FRAMES=%d" % ring, "VERIF_TYPED_RING=104", "VERIF_RING_SLOTS=%d" % ring] + list(excludes), cflags=rc.cflags(VERIF),
              unwind=max(7, 2 * nmax + 3), unwindset={"verif_memset_b.0": ring * 104 + 16}, solver=solver, timeout=timeout, mem_gb=24,
              what="whole real runtime over mock devices, coarse worker schedules, program template %d, %d acquisition(s) of 1..%d frames, ring = %d frames" % (prog, acqs, nmax, ring),
              bounds=dict(acquisitions=acqs, frames_per_acquisition="1..%d" % nmax, ring_frames=ring, client="<=2 map/unmap rounds per acquisition, partial consumption, may hold across stop"))
 
+def inst(acqs, n, early, ab, cl, ring=3, excl=True, timeout=900, prog=1):
+    d = ["FIX_N=%d" % n, "FIX_EARLY=%d" % early, "CL_MODE=%d" % cl]
+    if ab is not None:
+        d.append("FIX_ABORT=%d" % ab)
+    if excl:
+        d.append("EXCL_C06_FIRST_MAP=1")
+    h = api(prog, acqs, n, ring, timeout, name="api_A%d_N%d_e%d_%s_cl%d%s" % (acqs, n, early, {None: "sa", 0: "stop", 1: "abort"}[ab], cl, "" if excl else "_firstmap"), excludes=d)
+    h.what += "; source %s the client, %s, client mode %d%s" % ("before" if early else "after", {None: "stop or abort (symbolic)", 0: "stop", 1: "abort"}[ab], cl,
+                                                                "" if excl else " (client's first map ever happens after data exists: known-finding witness)")
+    return h
+
 def harnesses(tier, findings):
-    if tier == "probe":
-        return [api(1, 1, 1, 3, 900, name="p_all_fixed", excludes=["FIX_N=1", "FIX_EARLY=1", "FIX_ABORT=0", "CL_ROUNDS=0"]),
-                api(1, 1, 1, 3, 900, name="p_fixed_cl1", excludes=["FIX_N=1", "FIX_EARLY=1", "FIX_ABORT=0", "CL_ROUNDS=1"]),
-                api(1, 1, 1, 3, 900, name="p_sym_abort", excludes=["FIX_N=1", "FIX_EARLY=1", "CL_ROUNDS=0"]),
-                api(1, 1, 2, 3, 900, name="p_sym_N", excludes=["FIX_EARLY=1", "FIX_ABORT=0", "CL_ROUNDS=0"])]
-    if tier == "probe2":
-        return [api(1, 2, 2, 3, 900, name="q_full", excludes=["EXCL_C06_FIRST_MAP=1"]),
-                api(1, 2, 2, 3, 900, name="q_fixN", excludes=["EXCL_C06_FIRST_MAP=1", "FIX_N=2"]),
-                api(1, 2, 1, 3, 900, name="q_fixN1_cl1", excludes=["EXCL_C06_FIRST_MAP=1", "FIX_N=1", "CL_ROUNDS=1"]),
-                api(1, 1, 2, 3, 900, name="q_A1", excludes=["EXCL_C06_FIRST_MAP=1"])]
-    if tier == "quick":
-        return [api(1, 2, 2, 3)]
-    return [api(1, 2, 2, 3), api(1, 2, 3, 4, 3000), api(1, 3, 2, 3, 3000)]
+    excl = "C06-first-map-sees-earlier-data" in findings
+    hs = []
+    if tier == "probe3":
+        return [inst(2, 2, 1, None, 1), inst(2, 2, 1, None, 2), inst(2, 2, 1, None, 3), inst(2, 2, 0, None, 1), inst(1, 1, 1, 0, 0, excl=False)]
+    cls = (1, 2, 3)
+    for cl in cls:
+        hs.append(inst(2, 2, 1, None, cl, excl=excl))
+    hs.append(inst(2, 2, 0, None, 1, excl=excl))
+    if tier == "thorough":
+        for cl in cls:
+            hs.append(inst(3, 2, 1, None, cl, ring=3, excl=excl, timeout=3000))
+            hs.append(inst(2, 3, 1, None, cl, ring=4, excl=excl, timeout=3000))
+    if excl:
+        w = inst(1, 1, 1, 0, 0, excl=False)
+        w.expect = r"frames of a finished acquisition delivered after stop/abort returned"
+        w.finding = "C06-first-map-sees-earlier-data"
+        hs.append(w)
+    return hs
 
 META = dict(
     level="model_checking",
